@@ -103,9 +103,9 @@ def explore_expand(P, u):
     # the macro token or the end of its origin chain: a flag those creators copy from t is not attributable here
     hsumm = {}
     for f in FLAGS:
-        ds = set(summ[c][f] for c in ('new_num_token', 'new_str_token'))
-        d = ds.pop() if len(ds) == 1 else ('other', 'new_num_token and new_str_token differ')
-        hsumm[f] = d if d[0] in ('fresh', 'const') else ('other', 'taken from the template token')
+        per = [(c, summ[c][f] if summ[c][f][0] in ('fresh', 'const') else ('other', 'taken from the template token')) for c in ('new_num_token', 'new_str_token')]
+        ds = set(d for c, d in per)
+        hsumm[f] = ds.pop() if len(ds) == 1 else ('choice', tuple(per))      # which creator a handler uses is not known at the call
 
     class EI(PInterp):
         def e_CallExpr(self, n, env):
@@ -454,11 +454,15 @@ def apply_creator_flags(it, ctx, res, summary, args, name):
         fresh = False
         if d[0] == 'const':
             res.fields[f] = d[1]
+        elif d[0] == 'choice':
+            res.fields[f] = Sym(ctx.fresh('%s.%s' % (name, f)), '_Bool')
+            res.meta.setdefault('flag_choice', {})[f] = (res.fields[f], d[1])
         elif d[0] == 'arg' and d[1] < len(args) and isinstance(as_obj(it, args[d[1]]), Obj):
             res.fields[f] = it.read_field(as_obj(it, args[d[1]]), d[2])
         else:
             res.fields[f] = Sym(ctx.fresh('%s.%s' % (name, f)), '_Bool')
     res.meta['fresh'] = fresh
+    res.meta['created'] = True
     res.meta['flag_summary'] = summary
 
 
